@@ -14,7 +14,6 @@ UTF-8 bytes (`-` = empty). Offsets are byte offsets into the request's text.
   fmt-alias <alias> → s:<hex>  `format_program` on the one-alias program (layout at width 100)
   flat-alias <alias> → s:<hex> the single-line text of the alias (`printAlias`)
   wf <ty> | wf-alias <alias>      → 1 | 0        `WFType` (the hypothesis of the round-trip theorems)
-  norm <ty> | norm-alias <alias>  → <ty> | <alias>   `Ty.normalize`
 
 <ty>    ::= (prim int|bin|ref) | (tuple <name?> <0|1> <field>*) | (fn <ty> <ty>) | (union <ty>*)
           | (inter <ty>*) | (ident <name> <ty>*) | (cycle _|<n>) | (proc <ty?> <ty?>) | (res <name>)
@@ -185,12 +184,8 @@ def typeStep (req : List Sx) : Option String :=
     some (match aliasOfSx a with | some a => sHex (printAlias a) | none => "bad-request")
   | [.atom "wf", t] =>
     some (match tyOfSx t with | some t => (if t.wf then "1" else "0") | none => "bad-request")
-  | [.atom "norm", t] =>
-    some (match tyOfSx t with | some t => sxTy t.normalize | none => "bad-request")
   | [.atom "wf-alias", a] =>
     some (match aliasOfSx a with | some a => (if a.wf then "1" else "0") | none => "bad-request")
-  | [.atom "norm-alias", a] =>
-    some (match aliasOfSx a with | some a => sxAlias a.normalize | none => "bad-request")
   | _ => none
 
 end QM.TypeDriver
